@@ -177,6 +177,18 @@ __CPROVER_ensures(g_closes == __CPROVER_old(g_closes) + (fd == g_fd ? 1u : 0u))
 __CPROVER_ensures(g_closes_other == __CPROVER_old(g_closes_other) + (fd != g_fd ? 1u : 0u))
 __CPROVER_assigns(g_closes, g_closes_other);
 
-#define C14_GHOSTS size_t g_vk, g_src_len, g_pos, g_wpos; int g_eof_seen, g_err_seen; uint8_t g_sval, g_wval; ssize_t g_chunk; \
+/* scoped_fd(filename, flags): open(2) succeeded (a descriptor) or cannot_open_file was thrown;  phosg::fstat(fd).st_size:
+ * the size the file system reports (g_stat_size >= 0, independent of what read() will deliver) or cannot_stat_file */
+extern ssize_t g_stat_size;
+int c14_open(const void* filename, int flags)
+__CPROVER_requires(verif_exc == 0)
+__CPROVER_ensures((verif_exc == 0 && __CPROVER_return_value >= 0) || verif_exc == EXC_cannot_open_file)
+__CPROVER_assigns(verif_exc);
+ssize_t c14_fstat_size(int fd)
+__CPROVER_requires(verif_exc == 0)
+__CPROVER_ensures((verif_exc == 0 && __CPROVER_return_value == g_stat_size) || verif_exc == EXC_runtime_error)
+__CPROVER_assigns(verif_exc);
+
+#define C14_GHOSTS ssize_t g_stat_size; size_t g_vk, g_src_len, g_pos, g_wpos; int g_eof_seen, g_err_seen; uint8_t g_sval, g_wval; ssize_t g_chunk; \
                    int g_has_nl, g_overrun; const char* g_fg_buf; size_t g_fg_len; int g_fd; unsigned g_closes, g_closes_other;
 #endif
